@@ -149,7 +149,9 @@ async fn run_real(line: &str) -> String {
                     // the request target of this announce ("GET <target> HTTP/1.1")
                     let line0 = buf.split(|b| *b == b'\r').next().unwrap_or(&[]).to_vec();
                     let parts: Vec<&[u8]> = line0.split(|b| *b == b' ').collect();
-                    targets.borrow_mut().push(if parts.len() >= 3 { parts[1].to_vec() } else { vec![] });
+                    if parts.len() >= 3 && buf.windows(4).any(|w| w == b"\r\n\r\n") {
+                        targets.borrow_mut().push(parts[1].to_vec());     // (a request that was not read whole says nothing)
+                    }
                     // "<status>:<body hex>": that HTTP status with that body (error pages of any length and content)
                     let custom = ph.split_once(':').map(|(st, hx)| (format!("{} Status", st), unhex(hx)));
                     let (status, body): (&str, Vec<u8>) = match ph {
